@@ -1,5 +1,5 @@
-// ---------- shim: libcnb::Env (a HashMap<OsString, OsString> wrapper; its one-line methods are
-// proved against the HashMap shim in unit env_wrapper) ----------
+// The contracts assumed here for libcnb::Env (insert / get / contains_key / new) are PROVED for the real code in units/env.vrs (same statements over the real HashMap-backed struct).
+// ---------- shim: libcnb::Env (a HashMap<OsString, OsString> wrapper) ----------
 pub struct Env { pub m: Ghost<Map<Seq<u8>, Seq<u8>>> }
 impl View for Env { type V = Map<Seq<u8>, Seq<u8>>; closed spec fn view(&self) -> Map<Seq<u8>, Seq<u8>> { self.m@ } }
 impl Env {
